@@ -161,7 +161,10 @@ theorem reduce_left (op : Op) (hop : op = .add ∨ op = .mul) (how : How) (m : O
     opList op how m (x :: xs) ys = some ((xs ++ ys).foldl (binop op how m) x) := by
   rcases hop with rfl | rfl <;> rfl
 
-/-- `sub_ / div_` first reduce a list on either side with `add_ / mul_` -/
+/-- `sub_ / div_` first reduce a list on either side with `add_ / mul_`.  NOT the clause "lists of operands reduce left to
+right": this (and `reduce_div`) only unfolds the wrapper, which copies `_pandas.py` `sub_` / `div_`.  What the wrapper means
+against the left fold of the clause is stated by `sub_div_right_list_left_fold` (a list on the right only: the left fold, by
+value) and refuted by `sub_list_left_not_left_fold` / `div_list_left_not_left_fold` (a list on the left: known finding C08-A3). -/
 theorem reduce_sub (how : How) (m : Option Dir) (x y : Operand) (xs ys : List Operand) :
     opList .sub how m (x :: xs) (y :: ys) =
       some (binop .sub how m (xs.foldl (binop .add how m) x) (ys.foldl (binop .add how m) y)) := rfl
@@ -224,6 +227,60 @@ theorem reduce_value_sub_div (op : Op) (hop : op = .sub ∨ op = .div) (how : Ho
     refine ⟨r, ?_, ?_⟩
     · simp only [List.map_cons, reduce_div, a1, b1, c1]
     · intro t; rw [c4 t, a4 t, b4 t]; rfl
+
+/-- **the LEFT FOLD of the clause, by value, for all four operators**: the chain of BINARY calls `((x op y₁) op y₂) …` (what
+"lists of operands reduce left to right" prescribes; no list wrapper involved) is a Series whose value at every label `t` is the
+left fold of `op` over the operands' own values at `t` -/
+theorem left_fold_value (op : Op) (how : How) (x : RSeries) (ys : List RSeries) :
+    ∃ r, (ys.map Operand.ts).foldl (binop op how Option.none) (.ts x) = .ts r ∧
+      ∀ t, valueAtR r t = ys.foldl (fun v s => op.appO v (valueAtR s t)) (valueAtR x t) := by
+  obtain ⟨r, h1, _, _, h4⟩ := foldl_binop op how x ys
+  exact ⟨r, h1, h4⟩
+
+/-- **a list on the RIGHT of `sub_` / `div_` is the left fold, by value**: `sub_(x, [y₁, y₂ ..])` computes `x - (y₁ + y₂ ..)`, which
+at every label holds `((x[t] - y₁[t]) - y₂[t]) …` (NaN absorbing; `div_`: `x / (y₁ * y₂ ..)` = `((x / y₁) / y₂) …`, a zero divisor
+anywhere giving NaN on both sides) - the same values as the chain of binary calls (`left_fold_value`).  Independent of the
+wrapper's own `add_` / `mul_` pre-reduction: the right-hand side never mentions it. -/
+theorem sub_div_right_list_left_fold (op : Op) (hop : op = .sub ∨ op = .div) (how : How) (x y : RSeries) (ys : List RSeries) :
+    ∃ r, opList op how Option.none [.ts x] ((y :: ys).map .ts) = some (.ts r) ∧
+      ∀ t, valueAtR r t = (y :: ys).foldl (fun v s => op.appO v (valueAtR s t)) (valueAtR x t) := by
+  obtain ⟨r, h1, h2⟩ := reduce_value_sub_div op hop how x y [] ys
+  refine ⟨r, h1, fun t => ?_⟩
+  rw [h2 t]
+  have hp : (if op = .sub then Op.add else Op.mul) = op.pre := by rcases hop with rfl | rfl <;> rfl
+  rw [hp]
+  simp only [List.foldl_nil, List.foldl_cons]
+  exact foldl_pre_right op hop (fun s => valueAtR s t) ys _ _
+
+/-- … and the values agree with the chain of binary calls at every label -/
+theorem sub_div_right_list_eq_chain (op : Op) (hop : op = .sub ∨ op = .div) (how : How) (x y : RSeries) (ys : List RSeries) :
+    ∃ r r', opList op how Option.none [.ts x] ((y :: ys).map .ts) = some (.ts r) ∧
+      ((y :: ys).map Operand.ts).foldl (binop op how Option.none) (.ts x) = .ts r' ∧ ∀ t, valueAtR r t = valueAtR r' t := by
+  obtain ⟨r, h1, h2⟩ := sub_div_right_list_left_fold op hop how x y ys
+  obtain ⟨r', g1, g2⟩ := left_fold_value op how x (y :: ys)
+  exact ⟨r, r', h1, g1, fun t => (h2 t).trans (g2 t).symm⟩
+
+/-- **a list on the LEFT of `sub_` is NOT reduced left to right** (the clause is false of the code there; known finding C08-A3,
+`_pandas.py` `sub_`: `if isinstance(a, list): a = add_(a ..)`): on one day with a = 8, b = 2, c = 4, `sub_([a, b], c)` is
+`(8 + 2) - 4 = 6`, the left fold `(8 - 2) - 4 = 2` -/
+theorem sub_list_left_not_left_fold :
+    opList .sub .inner Option.none [.ts ⟨[0], [some 8]⟩, .ts ⟨[0], [some 2]⟩] [.ts ⟨[0], [some 4]⟩] = some (.ts ⟨[0], [some 6]⟩) ∧
+    [Operand.ts ⟨[0], [some 2]⟩, .ts ⟨[0], [some 4]⟩].foldl (binop .sub .inner Option.none) (.ts ⟨[0], [some 8]⟩) = .ts ⟨[0], [some 2]⟩ := by
+  decide +kernel
+
+/-- the same for `div_`: `div_([a, b], c)` is `(8 * 2) / 4 = 4`, the left fold `(8 / 2) / 4 = 1` -/
+theorem div_list_left_not_left_fold :
+    opList .div .inner Option.none [.ts ⟨[0], [some 8]⟩, .ts ⟨[0], [some 2]⟩] [.ts ⟨[0], [some 4]⟩] = some (.ts ⟨[0], [some 4]⟩) ∧
+    [Operand.ts ⟨[0], [some 2]⟩, .ts ⟨[0], [some 4]⟩].foldl (binop .div .inner Option.none) (.ts ⟨[0], [some 8]⟩) = .ts ⟨[0], [some 1]⟩ := by
+  decide +kernel
+
+/-- exactly when the difference shows, for scalars: `sub_([x, y], z)` against the left fold differ iff `y + y ≠ 0` -/
+theorem sub_list_left_scalar (x y z : Rat) :
+    opList .sub .inner Option.none [.num (some x), .num (some y)] [.num (some z)] = some (.num (some (x + y - z))) ∧
+    [Operand.num (some y), .num (some z)].foldl (binop .sub .inner Option.none) (.num (some x)) = .num (some (x - y - z)) ∧
+    (x + y - z = x - y - z ↔ y = 0) := by
+  refine ⟨rfl, rfl, ?_⟩
+  constructor <;> intro h <;> grind
 
 /-- one operator step read at EVERY label: inside the joint index the pointwise value, outside it NaN - which is what
 `a[t] op b[t]` gives there as well, because one of the operands has no row -/
@@ -1644,5 +1701,18 @@ example : framesOfX [.df fa, .ts { idx := [1], vals := [some 1] }, .num (some 2)
 /-- `XVal`: the unmasked division has infinities, the masked one has none -/
 example : (XVal.div (.fin 1) (.fin 0)).isInf = true ∧ (XVal.divMasked (.fin 1) (.fin 0)).isInf = false :=
   ⟨by rw [div_unmasked_inf.1]; rfl, (div_never_inf (some 1) (some 0)).1⟩
+
+/-- **the neutral element of a missing column is applied PER STEP of the reduction** (review t4, C08 clause 'oj'; a declared
+consequence of "lists reduce left to right", not a separate rule): under `columns = 'oj'` a scalar inside the list reaches
+only the columns the running result has when its turn comes.  `fa` has columns a, b; `fb` has b, c:
+`add_([fa, 1, fb])` = `(fa + 1) + fb` leaves `c = fb.c` (`0 + 8`), `add_([fa, fb, 1])` = `(fa + fb) + 1` gives `c = fb.c + 1`. -/
+theorem oj_neutral_per_step :
+    opListF .add .inner Option.none .oj
+        [.df ⟨[0], [("a", [some 1]), ("b", [some 2])]⟩, .num (some 1), .df ⟨[0], [("b", [some 4]), ("c", [some 8])]⟩] [] =
+      some (.df ⟨[0], [("a", [some 2]), ("b", [some 7]), ("c", [some 8])]⟩) ∧
+    opListF .add .inner Option.none .oj
+        [.df ⟨[0], [("a", [some 1]), ("b", [some 2])]⟩, .df ⟨[0], [("b", [some 4]), ("c", [some 8])]⟩, .num (some 1)] [] =
+      some (.df ⟨[0], [("a", [some 2]), ("b", [some 7]), ("c", [some 9])]⟩) := by
+  decide +kernel
 
 end Pyg.Props.C08
